@@ -9,7 +9,7 @@ pub const IDS: &[&str] = &["a", "b", "c", "x", "y", "f", "g", "obj", "arr", "_p"
 pub const FIELDS: &[&str] = &["a", "b", "c", "field", "x_y", "k1"];
 pub const STRS: &[&str] = &[
 	"", "a", "hello world", "é", "😀", "a\"b", "a'b", "back\\slash", "line1\nline2\n", "tab\there", "%s %d", "ünï", "\u{7f}", "\u{0}",
-	"  lead\n trail \n", "|||", "a\n\nb\n", "\ttabbed\n\t\tmore\n", "x\n", "\nblank first\n", "\n\ntwo blanks\n\n\n", "end blanks\n\n\n",
+	"  lead\n trail \n", "|||", "a\n\nb\n", "\ttabbed\n\t\tmore\n", "x\n", "\nblank first\n", "\n\ntwo blanks\n\n\n", "end blanks\n\n\n", "first\n  \nlast\n", "a\n\t\nb\n",
 ];
 
 pub struct SynCfg {
